@@ -27,6 +27,7 @@ type defItem struct {
 	late   bool     // the extend blocks may arrive in a later load (they add nothing an intermediate schema needs)
 	deps   []string // names of types / "@directives" it refers to
 	isType bool
+	final  *model.TypeDef // the type as it stands once base and extensions are merged (members in merge order)
 }
 
 func typeDeps(t *model.TypeDef) []string {
@@ -75,6 +76,43 @@ func typeDeps(t *model.TypeDef) []string {
 
 // splitExtend moves some members of a type into an extend block (written with a body, the form ggql reads).
 func splitExtend(r *rand.Rand, s *model.Schema, t *model.TypeDef, lateOK bool) (base *model.TypeDef, ext *model.TypeDef, late bool) {
+	if lateOK && t.Kind == model.Object && len(t.Interfaces) > 0 && r.Intn(2) == 0 {
+		// `implements I` together with the fields only I asks for arrives as a later extension. The base must be a valid
+		// type on its own and every intermediate schema valid, so this is only done when no field or argument anywhere is
+		// typed by I (then nothing can rely on t being an I) and the base keeps at least one field.
+		in := t.Interfaces[len(t.Interfaces)-1]
+		usedAsType := false
+		for _, ot := range s.Types {
+			for _, f := range ot.Fields {
+				if f.Type.Base() == in {
+					usedAsType = true
+				}
+			}
+		}
+		if it := s.Type(in); it != nil && !usedAsType {
+			var keep, move []*model.FieldDef
+			for _, f := range t.Fields {
+				onlyIn := it.Field(f.Name) != nil
+				for _, other := range t.Interfaces[:len(t.Interfaces)-1] {
+					if oi := s.Type(other); oi != nil && oi.Field(f.Name) != nil {
+						onlyIn = false
+					}
+				}
+				if onlyIn {
+					move = append(move, f)
+				} else {
+					keep = append(keep, f)
+				}
+			}
+			if len(keep) > 0 && len(move) > 0 {
+				b, e := *t, *t
+				e.Desc, e.Dirs = "", nil
+				b.Interfaces, e.Interfaces = t.Interfaces[:len(t.Interfaces)-1], []string{in}
+				b.Fields, e.Fields = keep, move
+				return &b, &e, true
+			}
+		}
+	}
 	if lateOK && t.Kind == model.Object {
 		// only own fields (not required by an implemented interface) move; the base stays a valid type on its own
 		var own, req []*model.FieldDef
@@ -172,8 +210,17 @@ func c16Items(r *rand.Rand, s *model.Schema, split bool, lateOK bool) []*defItem
 			base, ext, it.late = splitExtend(r, s, t, lateOK && r.Intn(2) == 0)
 		}
 		it.text = model.TypeSDL(base, o, false)
+		it.final = t
 		if ext != nil {
 			it.exts = append(it.exts, model.TypeSDL(ext, o, true))
+			m := *base
+			m.Fields = append(append([]*model.FieldDef{}, base.Fields...), ext.Fields...)
+			m.Interfaces = append(append([]string{}, base.Interfaces...), ext.Interfaces...)
+			m.Values = append(append([]*model.EnumVal{}, base.Values...), ext.Values...)
+			m.Inputs = append(append([]*model.ArgDef{}, base.Inputs...), ext.Inputs...)
+			m.Members = append(append([]string{}, base.Members...), ext.Members...)
+			m.Dirs = append(append([]model.DirUse{}, base.Dirs...), ext.Dirs...)
+			it.final = &m
 		}
 		items = append(items, it)
 	}
@@ -204,6 +251,20 @@ func c16Items(r *rand.Rand, s *model.Schema, split bool, lateOK bool) []*defItem
 type arrangement struct {
 	how   string
 	loads []string
+	final *model.Schema // the definition set with every type's members in the order the arrangement merges them (nil: as given)
+}
+
+// mergedSchema is s with the types replaced by the items' merged forms.
+func mergedSchema(s *model.Schema, items []*defItem) *model.Schema {
+	cp := *s
+	cp.Types = nil
+	for _, it := range items {
+		if it.isType && it.final != nil {
+			cp.Types = append(cp.Types, it.final)
+		}
+	}
+	cp.Reindex()
+	return &cp
 }
 
 func c16Arrange(r *rand.Rand, s *model.Schema, mode int) arrangement {
@@ -214,7 +275,7 @@ func c16Arrange(r *rand.Rand, s *model.Schema, mode int) arrangement {
 		for _, it := range items {
 			b.WriteString(it.text + "\n")
 		}
-		return arrangement{"original order, one document", []string{b.String()}}
+		return arrangement{"original order, one document", []string{b.String()}, nil}
 	case 1: // random permutation, one document
 		items := c16Items(r, s, false, false)
 		r.Shuffle(len(items), func(i, j int) { items[i], items[j] = items[j], items[i] })
@@ -222,7 +283,7 @@ func c16Arrange(r *rand.Rand, s *model.Schema, mode int) arrangement {
 		for _, it := range items {
 			b.WriteString(it.text + "\n")
 		}
-		return arrangement{"permutation, one document", []string{b.String()}}
+		return arrangement{"permutation, one document", []string{b.String()}, nil}
 	case 2: // members moved into extend blocks, permuted (an extend block anywhere after... ggql applies extends after all types of the document)
 		items := c16Items(r, s, true, false)
 		r.Shuffle(len(items), func(i, j int) { items[i], items[j] = items[j], items[i] })
@@ -237,7 +298,22 @@ func c16Arrange(r *rand.Rand, s *model.Schema, mode int) arrangement {
 				parts = append(parts[:k], append([]string{e}, parts[k:]...)...)
 			}
 		}
-		return arrangement{"extend blocks, permuted, one document", []string{strings.Join(parts, "\n")}}
+		return arrangement{"extend blocks, permuted, one document", []string{strings.Join(parts, "\n")}, mergedSchema(s, items)}
+	case 5: // every definition in the first load, then each late extension as a load of its own (no new type arrives with it)
+		items := c16Items(r, s, true, true)
+		var first, later []string
+		for _, it := range items {
+			first = append(first, it.text)
+			for _, e := range it.exts {
+				if it.late {
+					later = append(later, e)
+				} else {
+					first = append(first, e)
+				}
+			}
+		}
+		r.Shuffle(len(later), func(i, j int) { later[i], later[j] = later[j], later[i] })
+		return arrangement{fmt.Sprintf("%d successive loads: all definitions, then one extension per load", 1+len(later)), append([]string{strings.Join(first, "\n")}, later...), mergedSchema(s, items)}
 	default: // partition into 2-4 successive loads that keep references resolvable
 		items := c16Items(r, s, mode == 4, true)
 		nl := 2 + r.Intn(3)
@@ -283,7 +359,7 @@ func c16Arrange(r *rand.Rand, s *model.Schema, mode int) arrangement {
 		if mode == 4 {
 			how += " with extend blocks"
 		}
-		return arrangement{how, loads}
+		return arrangement{how, loads, mergedSchema(s, items)}
 	}
 }
 
@@ -293,6 +369,7 @@ type c16Outcome struct {
 	canon    string
 	intro    string
 	reqs     string
+	ordered  string // the same arrangement loaded again must reproduce this byte for byte: printed SDL + introspection with lists in ggql's own order
 }
 
 func c16Run(a arrangement) c16Outcome {
@@ -320,6 +397,7 @@ func c16Run(a arrangement) c16Outcome {
 		}
 		res := root.ResolveString(c17FullQuery, "Full", map[string]interface{}{"dep": true})
 		out.intro = ref.Render(sortIntro(ref.Canon(res["data"]))) + " errors=" + fmt.Sprint(res["errors"])
+		out.ordered = root.SDL(false, true) + "\n" + ref.Render(ref.Canon(res["data"]))
 		for _, q := range []string{`{ __typename }`, `mutation { __typename }`, `subscription { __typename }`, `{ __schema { queryType { name } mutationType { name } subscriptionType { name } } }`} {
 			r2 := root.ResolveString(q, "", nil)
 			out.reqs += q + " => " + ref.Render(ref.Canon(r2["data"])) + fmt.Sprint(r2["errors"]) + "\n"
@@ -378,7 +456,7 @@ func sortIntro(v interface{}) interface{} {
 }
 
 func runC16(c *run.Ctx) {
-	c.Rule = "one generated well-formed definition set is loaded in up to 10 arrangements: model order; random permutations; members (fields, values, input fields, union members, interfaces, type directives, the mutation root) " +
+	c.Rule = "one generated well-formed definition set is loaded in up to 12 arrangements: model order; random permutations; members (fields, values, input fields, union members, interfaces, type directives, the mutation root) " +
 		"moved into extend blocks; partitions into 2-4 successive loads that keep references resolvable, with and without extend blocks; sets are steered to directive uses before/after their definition with defaulted " +
 		"arguments, a type and a directive sharing a name, root operation types arriving in later loads, explicit and extended schema blocks. Oracle: all arrangements accept or all reject; canonical schemas equal " +
 		"(after filling directive-argument defaults, the normalisation the statement allows); the full introspection answer equal with name-keyed lists; a fixed request set equal. Non-trivial = the set has >= 6 definitions; distinct by SDL"
@@ -426,8 +504,8 @@ func runC16(c *run.Ctx) {
 			// an extension that makes an already loaded, valid type ill-formed: refused in one document, so it must be
 			// refused as a later load too
 			if ext, what := c16BadExtension(r, ms); ext != "" {
-				one := c16Run(arrangement{"one document", []string{key + "\n" + ext}})
-				two := c16Run(arrangement{"base, then the extension", []string{key, ext}})
+				one := c16Run(arrangement{"one document", []string{key + "\n" + ext}, nil})
+				two := c16Run(arrangement{"base, then the extension", []string{key, ext}, nil})
 				c.Bucket("steering", "late-ill-formed-extension:"+what)
 				c.Count("arrangements_loaded", 2)
 				if one.accepted != two.accepted {
@@ -440,10 +518,20 @@ func runC16(c *run.Ctx) {
 		}
 		var first *c16Outcome
 		var firstArr arrangement
-		modes := []int{0, 1, 1, 2, 2, 3, 3, 3, 4, 4}
+		modes := []int{0, 1, 1, 2, 2, 3, 3, 3, 4, 4, 5, 5}
 		for ai, mode := range modes {
 			arr := c16Arrange(c.Rand(i*100+ai+1), ms, mode)
 			out := c16Run(arr)
+			if ai%3 == 2 && out.accepted {
+				// determinism: the very same loads on another fresh root give the very same schema, member order included
+				again := c16Run(arr)
+				c.Count("arrangements_loaded_twice", 1)
+				if again.ordered != out.ordered {
+					c.Violation("c16-same-arrangement-differs", map[string]interface{}{"diag": "the same documents loaded in the same order on two fresh roots give different schemas: " + firstDiffLong(out.ordered, again.ordered),
+						"arrangement_a": arr.how, "loads_a": arr.loads})
+					break
+				}
+			}
 			c.Bucket("arrangement", strings.SplitN(arr.how, ",", 2)[0])
 			c.Count("arrangements_loaded", 1)
 			if ai == 0 {
